@@ -176,6 +176,11 @@ func dagPut(ctx context.Context, rc *regclient.RegClient, mc dagConfig, rSrc, rT
 			if child.mod != unchanged && child.newDesc.Digest != "" {
 				d = child.newDesc
 			}
+			// the data field is that of the index entry, not of the descriptor the manifest was fetched with
+			d.Data = nil
+			if child.mod != added {
+				d.Data = ociI.Manifests[i].Data
+			}
 			if d.Size <= mc.maxDataSize || (mc.maxDataSize < 0 && len(d.Data) > 0) {
 				// if data field should be set
 				// retrieve the body
